@@ -274,6 +274,47 @@ pub fn progress_bar(counts: [usize; 6], bar_size: usize) -> String {
     crate::progress_fancy::verif_hooks::progress_bar(&c, bar_size)
 }
 
+fn state_counts(counts: [usize; 6]) -> StateCounts {
+    use crate::work::BuildState::*;
+    let mut c = StateCounts::default();
+    for (i, st) in [Want, Ready, Queued, Running, Done, Failed].into_iter().enumerate() {
+        c.add(st, counts[i] as isize);
+    }
+    c
+}
+
+/// FancyState (progress_fancy.rs) driven without display thread or terminal.
+pub struct Fancy(crate::progress_fancy::verif_hooks::Fancy);
+impl Fancy {
+    pub fn new(verbose: bool) -> Fancy {
+        Fancy(crate::progress_fancy::verif_hooks::Fancy::new(verbose))
+    }
+    pub fn update(&mut self, counts: [usize; 6]) {
+        self.0.update(&state_counts(counts));
+    }
+    pub fn task_started(&mut self, id: usize, start_ms: u64, desc: Option<String>, cmdline: Option<String>) {
+        self.0.task_started(id, start_ms, desc, cmdline);
+    }
+    pub fn task_output(&mut self, id: usize, line: Vec<u8>) {
+        self.0.task_output(id, line);
+    }
+    pub fn task_finished(&mut self, id: usize, desc: Option<String>, cmdline: Option<String>, hide_success: bool, term: u8, output: Vec<u8>) {
+        self.0.task_finished(id, desc, cmdline, hide_success, term, output);
+    }
+    pub fn log(&mut self, msg: &str) {
+        self.0.log(msg);
+    }
+    pub fn print_progress(&mut self, now_ms: u64, cols: usize) -> Vec<u8> {
+        self.0.print_progress(now_ms, cols)
+    }
+    pub fn pending(&self) -> Vec<u8> {
+        self.0.pending()
+    }
+    pub fn task_ids(&self) -> Vec<usize> {
+        self.0.task_ids()
+    }
+}
+
 pub fn remove_duplicates(ids: Vec<usize>, explicit: usize) -> (Vec<usize>, usize) {
     let mut outs = crate::graph::BuildOuts {
         ids: ids.into_iter().map(crate::graph::FileId::from).collect(),
